@@ -18,7 +18,7 @@ assert subprocess.run(['git', '-C', '/repo', 'status', '--porcelain', '--untrack
 open(path, 'w').write(s.replace(old, new, 1))
 try:
     for c in checks:
-        env = dict(os.environ, VERIF_SHRINK_S='5')
+        env = dict(os.environ, VERIF_SHRINK_S='5', VERIF_OUT='/tmp/verif-mutant-out')
         r = subprocess.run(['/venv/bin/python', '/verif/run_check.py', c, '--tier', 'quick'], capture_output=True, text=True, env=env, cwd='/verif')
         lines = [l for l in r.stdout.splitlines() if l.startswith('VIOLATION') or l.startswith('  ')]
         print('%s exit=%d %s' % (c, r.returncode, ' | '.join(l.strip()[:160] for l in lines[:2])))
